@@ -19,18 +19,14 @@ Definition py_index {A} (l : list A) (i : Z) : result A :=
 (* x in [c1, c2, ...] for ints *)
 Definition mem_z (x : Z) (l : list Z) : bool := existsb (Z.eqb x) l.
 
-(* bytes + (bytes | None): TypeError when the right operand is None *)
-Definition bytes_add_opt (a : bytes) (o : option bytes) : result bytes :=
-  match o with Some b => Ok (a ++ b) | None => Err TypeE end.
-
-(* ---- utils.compact_size_uint: falls off the end (returns None) above 2^64-1 ---- *)
-Definition compact_size_uint (n : Z) : result (option bytes) :=
+(* ---- utils.compact_size_uint: ValueError below 0 and above 2^64-1 ---- *)
+Definition compact_size_uint (n : Z) : result bytes :=
   if n <? 0 then Err ValueE
-  else if (0 <=? n) && (n <=? 252) then Ok (Some (to_le 1 n))
-  else if (253 <=? n) && (n <=? 0xFFFF) then Ok (Some (xfd :: to_le 2 n))
-  else if (0x10000 <=? n) && (n <=? 0xFFFFFFFF) then Ok (Some (xfe :: to_le 4 n))
-  else if (0x100000000 <=? n) && (n <=? 0xFFFFFFFFFFFFFFFF) then Ok (Some (xff :: to_le 8 n))
-  else Ok None.
+  else if (0 <=? n) && (n <=? 252) then Ok (to_le 1 n)
+  else if (253 <=? n) && (n <=? 0xFFFF) then Ok (xfd :: to_le 2 n)
+  else if (0x10000 <=? n) && (n <=? 0xFFFFFFFF) then Ok (xfe :: to_le 4 n)
+  else if (0x100000000 <=? n) && (n <=? 0xFFFFFFFFFFFFFFFF) then Ok (xff :: to_le 8 n)
+  else Err ValueE.
 
 (* ---- tx.outpoint / tx.txin / tx.txout ---- *)
 (* txid_ + index.to_bytes(4, "little") *)
@@ -41,8 +37,7 @@ Definition outpoint (txid_ : bytes) (index : Z) : result bytes :=
 (* prev_outpoint + compact_size_uint(len(script_sig)) + script_sig + sequence   (sequence is BYTES, unchecked) *)
 Definition txin (prev_outpoint script_sig sequence : bytes) : result bytes :=
   cs <- compact_size_uint (Z.of_nat (length script_sig)) ;;
-  a <- bytes_add_opt prev_outpoint cs ;;
-  Ok (a ++ script_sig ++ sequence).
+  Ok (prev_outpoint ++ cs ++ script_sig ++ sequence).
 
 Definition default_sequence : bytes := [xff; xff; xff; xff].
 
@@ -50,8 +45,7 @@ Definition default_sequence : bytes := [xff; xff; xff; xff].
 Definition txout (value : Z) (script_pubkey : bytes) : result bytes :=
   vb <- to_le_chk 8 value ;;
   cs <- compact_size_uint (Z.of_nat (length script_pubkey)) ;;
-  a <- bytes_add_opt vb cs ;;
-  Ok (a ++ script_pubkey).
+  Ok (vb ++ cs ++ script_pubkey).
 
 Section Model.
   Variable sha256 : bytes -> bytes.
@@ -114,7 +108,7 @@ Section Model.
 
   Definition ser_scriptcode (script : bytes) : result bytes :=
     cs <- compact_size_uint (Z.of_nat (length script)) ;;
-    match cs with Some p => Ok (p ++ script) | None => Err TypeE end.
+    Ok (cs ++ script).
 
   Definition witness_message_tx (t : tx) (txin_index txin_value : Z) (script : bytes) (sighash_flag : option Z)
     : result bytes :=
